@@ -8,7 +8,7 @@
    line search. *)
 From Coq Require Import List Arith Bool Ring ZArith.
 From TLV Require Import Base.Shape Base.PyList Base.Tensor Base.BigSum Model.WarmStart Proofs.WarmStartProofs
-  Proofs.WarmStartProofs2 Proofs.WarmStartTucker Proofs.WarmStartP2 Proofs.WarmStartEndToEnd.
+  Proofs.WarmStartProofs2 Proofs.WarmStartTucker Proofs.WarmStartP2 Proofs.WarmStartEndToEnd Proofs.WarmStartSrc.
 Import ListNotations.
 
 (* (i) the tensor represented by the initialisation, weights absorbed into the last factor *)
@@ -499,3 +499,105 @@ Example C14_nonvacuous_parafac2 :
     = Ok (mkp2 [2; -3]%Z [[[1; 1]]; [[2; 1]; [0; 3]]; [[1; 1]]]%Z [[[1; 0]; [0; 1]; [0; 0]]%Z]) /\
   p2_init 1%Z (fun B => (B, B)) 3 (FromP2 (Some [2; -3]%Z) [[[1; 1]]; [[1; 2]; [3; 4]]; [[1; 1]]]%Z []) = Err.
 Proof. vm_compute. repeat split. Qed.
+
+(* ---- source tie (Proofs/WarmStartSrc.v): the decision prologue of every driver -- everything between the initialiser and the
+   sweep loop that reads or rewrites fixed_modes -- is regenerated from the CURRENT Python source by an ast translator on every
+   run (harness/props/C14.py, source_tie) as a function n -> fixed -> fmres and proved equal to fm_model by the generated
+   lemmas fm_src_<driver>_ok; the statements below are what those lemmas plug into *)
+Theorem C14_run_factors_through_prologue : forall (M W X : Type) upd stop normf normalize pre pre_on post ls_on ls_accept lsf lsw lsx
+  a n fixed budget tol (s : st M W X),
+  run upd stop normf normalize pre pre_on post ls_on ls_accept lsf lsw lsx a n fixed budget tol s
+  = run_from upd stop normf normalize pre pre_on post ls_on ls_accept lsf lsw lsx (fm_model a n fixed) a budget tol s.
+Proof. exact @run_factors. Qed.
+Print Assumptions C14_run_factors_through_prologue.
+
+(* `set(fixed_modes) == set(range(ndim))` is the model's names_every_mode *)
+Theorem C14_prologue_set_comparison : forall fixed n, set_eqb fixed (seq 0 n) = names_every_mode fixed n.
+Proof. exact set_eqb_range. Qed.
+Print Assumptions C14_prologue_set_comparison.
+
+(* fixed modes stay fixed / zero budget returns the start / the loop walks exactly the non-fixed modes, for ANY prologue
+   function that agrees with the model's -- instantiated on every run with the regenerated one *)
+Theorem C14_fixed_modes_any_prologue : forall (M W X : Type) (src : nat -> list nat -> fmres) (a : algo),
+  (forall n fixed, src n fixed = fm_model a n fixed) ->
+  forall upd stop normf pre pre_on post ls_on ls_accept lsf lsw lsx n fixed budget tol (s s' : st M W X) d m,
+  (has_hooks a = true -> forall it s x, lsf it s x x = x) ->
+  run_from upd stop normf false pre pre_on post ls_on ls_accept lsf lsw lsx (src n fixed) a budget tol s = Ok s' ->
+  In m fixed -> (drops_last a = true -> m <> n - 1) -> nth m (facs s') d = nth m (facs s) d.
+Proof. exact @src_fixed_modes. Qed.
+Print Assumptions C14_fixed_modes_any_prologue.
+
+Theorem C14_zero_budget_any_prologue : forall (M W X : Type) (src : nat -> list nat -> fmres) (a : algo),
+  (forall n fixed, src n fixed = fm_model a n fixed) ->
+  forall upd stop normf normalize pre pre_on post ls_on ls_accept lsf lsw lsx n fixed tol (s : st M W X),
+  run_from upd stop normf normalize pre pre_on post ls_on ls_accept lsf lsw lsx (src n fixed) a 0 tol s = Ok s.
+Proof. exact @src_zero_budget. Qed.
+Print Assumptions C14_zero_budget_any_prologue.
+
+Theorem C14_loop_modes_any_prologue : forall (src : nat -> list nat -> fmres) (a : algo),
+  (forall n fixed, src n fixed = fm_model a n fixed) ->
+  forall n fixed ml fx, src n fixed = FLoop ml fx -> forall m, In m ml <-> m < n /\ ~ In m fx.
+Proof. exact @src_loop_modes. Qed.
+Print Assumptions C14_loop_modes_any_prologue.
+
+Theorem C14_all_fixed_any_prologue : forall (src : nat -> list nat -> fmres) (a : algo),
+  (forall n fixed, src n fixed = fm_model a n fixed) ->
+  forall n fixed, shortcut a = true -> (forall m, m < n -> In m fixed) -> (forall m, In m fixed -> m < n) -> src n fixed = FReturn.
+Proof. exact @src_all_fixed_shortcut. Qed.
+Print Assumptions C14_all_fixed_any_prologue.
+
+(* HALS-CP start state through the regenerated block in front of the initialiser *)
+Theorem C14_hals_init_via_prologue : forall (F : Type) (one : F) (mul : F -> F -> F) (eqb : F -> F -> bool) R n fixed w
+  (fs : list (matrix (F := F))),
+  let w' := match w with None => ones one R | Some v => v end in
+  init_hals one mul eqb R n fixed w fs
+  = match hals_pre_model n fixed (negb (all_ones one eqb w')) with
+    | Some k => init_cp one mul eqb R None (absorb_at mul k w' fs)
+    | None => init_cp one mul eqb R w fs
+    end.
+Proof. exact @init_hals_via_pre. Qed.
+Print Assumptions C14_hals_init_via_prologue.
+
+Example C14_nonvacuous_prologue :
+  fm_model Parafac 3 [1; 0; 2; 2] = FReturn /\ fm_model Parafac 3 [0; 2] = FLoop [1; 2] [0] /\
+  fm_model NNHals 3 [0; 2] = FLoop [1] [0; 2] /\ fm_model NNHals 2 [1; 0] = FReturn /\
+  fm_model Constrained 2 [0; 1; 1] = FLoop [] [0; 1] /\
+  hals_pre_model 3 [2; 0] true = Some 1 /\ hals_pre_model 3 [2; 0] false = None /\ hals_pre_model 3 [0] true = None /\
+  hals_pre_model 3 [0; 1; 2] true = None /\
+  (forall n fixed, fm_expect_parafac n fixed = fm_model Parafac n fixed) /\
+  (forall n fixed nonunit, hals_pre_expect n fixed nonunit = hals_pre_model n fixed nonunit).
+Proof. repeat split; try (vm_compute; reflexivity). exact fm_expect_parafac_ok. exact hals_pre_expect_ok. Qed.
+
+(* parafac's line search with ANY entrywise candidate formula e jump last cur that maps (x, x) to x (the regenerated formula
+   is proved to, by `ring`, on every run): fixed modes survive, for every jump schedule and accept decision *)
+Theorem C14_fixed_modes_any_linesearch_formula : forall (F : Type) (e : F -> F -> F -> F), (forall j x, e j x x = x) ->
+  forall (W X : Type) upd stop normf pre pre_on post ls_on ls_accept (jump : nat -> st (list (list F)) W X -> F) lsw lsx
+  a n fixed budget tol (s s' : st (list (list F)) W X) d m,
+  run upd stop normf false pre pre_on post ls_on ls_accept (fun it s => ls_mat_gen e (jump it s)) lsw lsx
+      a n fixed budget tol s = Ok s' ->
+  In m (eff_fixed a n fixed) -> nth m (facs s') d = nth m (facs s) d.
+Proof. exact fixed_modes_ls_gen. Qed.
+Print Assumptions C14_fixed_modes_any_linesearch_formula.
+
+(* parafac2's nn_modes gate (commit 29e7702): a user-supplied decomposition is the start state as it is, whatever nn_modes says
+   (so C14_parafac2_init_* and the zero-budget statements apply unchanged with nn_modes) ... *)
+Theorem C14_parafac2_start_user : forall (F : Type) (one : F) qr rank clip nn (init : p2init F),
+  p2_start one qr rank clip false nn init = p2_init one qr rank init.
+Proof. exact @p2_start_user. Qed.
+Print Assumptions C14_parafac2_start_user.
+
+(* ... and of a built-in initialisation exactly the factors of the modes named by nn_modes are projected *)
+Theorem C14_parafac2_start_builtin : forall (F : Type) (one : F) qr rank clip ms (init : p2init F) s,
+  p2_start one qr rank clip true (Some ms) init = Ok s ->
+  exists s0, p2_init one qr rank init = Ok s0 /\ p2w s = p2w s0 /\ p2P s = p2P s0 /\ length (p2f s) = length (p2f s0) /\
+    forall k d, k < length (p2f s0) -> nth k (p2f s) d = if memb k ms then clip (nth k (p2f s0) d) else nth k (p2f s0) d.
+Proof. exact @p2_start_builtin. Qed.
+Print Assumptions C14_parafac2_start_builtin.
+
+Example C14_nonvacuous_parafac2_start :
+  let init := FromP2 (Some [2; -3]%Z) [[[1; -1]]; [[-1; 2]; [3; -4]]; [[1; -2]]]%Z [[[1; 0]; [0; 1]]%Z] in
+  let clip := map (map (Z.max 0)) in
+  p2_start 1%Z (fun B => (B, B)) 2 clip false (Some [0; 2]) init = p2_init 1%Z (fun B => (B, B)) 2 init /\
+  p2_start 1%Z (fun B => (B, B)) 2 clip true (Some [0; 2]) init
+    = Ok (mkp2 [2; -3]%Z [[[1; 0]]; [[-1; 2]; [3; -4]]; [[1; 0]]]%Z [[[1; 0]; [0; 1]]%Z]).
+Proof. vm_compute. split; reflexivity. Qed.
